@@ -68,7 +68,7 @@ def run_case(ctx, rep, spec, fields, limit, serial, model, start=None, path=None
 
 
 def run(ctx, rep, model=True):
-    n = 16 if ctx.quick else 120
+    n = 30 if ctx.quick else 160
     for i in range(n):
         spec = plotgen.random_spec(ctx.rng, ndims=2, nlev=[1, 2, 3, 2][i % 4], nf=[2, 3, 1][i % 3], data="tags", B=[2, 4][i % 2],
                                    nblk=[[1, 1], [2, 1], [3, 2], [1, 3]][i % 4] if i % 2 == 0 else None,
